@@ -45,8 +45,13 @@ def hashed_headers(fpr: str, when: int = 1594609606) -> bytes:
     return bytes([4, 0, 22, 8]) + struct.pack(">H", len(sub)) + sub
 
 
+DURING: list = []                    # callables run while the signer is being asked (what other processes do to the file system in the meantime)
+
+
 def create_signature(content, keyid=None, homedir=None):
     CALLS.append(("create_signature", keyid))
+    while DURING:
+        DURING.pop(0)()
     if FAIL_NEXT:
         raise FAIL_NEXT.pop(0)
     if CANNED is not None:
